@@ -348,4 +348,6 @@ def run(ck, tier):
     ck.guard(r13_listen_only_stays_unsendable, ck, cx, 'R10')
     ck.guard(r11_no_memory_of_earlier_traffic, ck, cx)
     ck.guard(r12_same_fate_after_a_framer_fault, ck, cx)
+    from .. import options as _opt
+    ck.guard(_opt.rule_options_read_at_construction, ck, cx, 'R13', ('pymodbus.server.sync', 'pymodbus.server.async_io', 'pymodbus.server.asynchronous'), ('IgnoreMissingSlaves', 'broadcast_enable'), 'this front-end runs with the import-time policy while its siblings read the configured one: the same requests are answered differently')
     return cx.idx
